@@ -148,7 +148,8 @@ def classify(line, pins, marker):
 
 def scripts(tier):
     kmax = 3 if tier == 'quick' else 4
-    heads = [(5, 1, 7, 1), (5, 2, 7, 1), (5, 1, 7, 2), (1, 0, 1, 1), (3, 1, 2, 0), (1, 2, 1, 2), (9, 3, 9, 1)]
+    heads = [(5, 1, 7, 1), (5, 2, 7, 1), (5, 1, 7, 2), (1, 0, 1, 1), (3, 1, 2, 0), (1, 2, 1, 2), (9, 3, 9, 1),
+             (0, 0, 1, 1), (1, 1, 0, 0)]      # created / deleted file: the empty side starts at line 0
     out = []
     for (os_, on, ms, mn) in heads:
         for k in range(0, min(on + mn + 1, kmax) + 1):
